@@ -613,6 +613,7 @@ type tr =
 | TPrefetch of tr * cand list * bool
 | TCharset of tr * bool
 | TUniquified of tr * bool * text list
+| TSimplified of (cand -> (cand * cand list) option) * tr * cand list * bool
 
 (** val exhausted : tr -> bool **)
 
@@ -631,6 +632,7 @@ let exhausted = function
 | TPrefetch (_, _, e) -> e
 | TCharset (_, e) -> e
 | TUniquified (_, e, _) -> e
+| TSimplified (_, _, _, e) -> e
 
 (** val peek : tr -> cand option **)
 
@@ -659,6 +661,10 @@ let rec peek = function
                        | c :: _ -> Some c)
 | TCharset (t0, _) -> peek t0
 | TUniquified (t0, e, _) -> if e then None else peek t0
+| TSimplified (_, t0, q, e) ->
+  if e then None else (match q with
+                       | [] -> peek t0
+                       | c :: _ -> Some c)
 
 (** val rem : tr -> nat **)
 
@@ -684,6 +690,10 @@ let rec rem = function
 | TPrefetch (t0, q, e) -> if e then O else S (add (length q) (rem t0))
 | TCharset (t0, e) -> if e then O else S (rem t0)
 | TUniquified (t0, e, _) -> if e then O else S (rem t0)
+| TSimplified (_, t0, q, e) ->
+  if e
+  then O
+  else S (add (length q) (mul (S (S (S (S (S (S (S O))))))) (rem t0)))
 
 (** val height : tr -> nat **)
 
@@ -705,6 +715,7 @@ let rec height = function
 | TPrefetch (t0, _, _) -> S (height t0)
 | TCharset (t0, _) -> S (height t0)
 | TUniquified (t0, _, _) -> S (height t0)
+| TSimplified (_, t0, _, _) -> S (height t0)
 | _ -> S O
 
 (** val compare_default : tr -> tr option -> z **)
@@ -828,6 +839,19 @@ let rec rewrite_at k nxt = function
 let has_text seen t =
   existsb (text_eqb t) seen
 
+(** val max_forms : nat **)
+
+let max_forms =
+  S (S (S (S (S (S O)))))
+
+(** val forms_of :
+    (cand -> (cand * cand list) option) -> cand -> cand list **)
+
+let forms_of conv n0 =
+  match conv n0 with
+  | Some p -> let (h, tl) = p in firstn max_forms (h :: tl)
+  | None -> n0 :: []
+
 (** val distinct_loop :
     (tr -> cache -> (bool * tr) * cache) -> nat -> tr -> text list -> cache
     -> (tr * bool) * cache **)
@@ -911,6 +935,21 @@ let rec rearrange nx fuel t top bottom c =
                  then rearrange nx f t' (app top (p :: [])) bottom c'
                  else rearrange nx f t' top (app bottom (p :: [])) c'
           | None -> ((t, (app top bottom)), c))
+
+(** val settle :
+    (tr -> cache -> (bool * tr) * cache) -> (cand -> (cand * cand list)
+    option) -> tr -> cache -> tr * cache **)
+
+let settle nx conv t c =
+  if exhausted t
+  then ((TSimplified (conv, t, [], true)), c)
+  else let n0 = peek t in
+       let (p, c') = nx t c in
+       let (_, t') = p in
+       ((TSimplified (conv, t',
+       (match n0 with
+        | Some x -> forms_of conv x
+        | None -> []), false)), c')
 
 (** val dead : tr **)
 
@@ -1005,7 +1044,22 @@ let rec next_d d t c =
               uniquify (next_d d') (S (rem t0')) yl' t0' (exhausted t0') c'
             in
             let (p1, e1) = p0 in
-            let (r, t1) = p1 in ((r, (TUniquified (t1, e1, yl'))), c1))
+            let (r, t1) = p1 in ((r, (TUniquified (t1, e1, yl'))), c1)
+     | TSimplified (conv, t0, q, e) ->
+       if e
+       then ((false, t), c)
+       else (match q with
+             | [] ->
+               let (p, c1) = next_d d' t0 c in
+               let (_, t0') = p in
+               let (t', c') = settle (next_d d') conv t0' c1 in
+               ((true, t'), c')
+             | _ :: q' ->
+               (match q' with
+                | [] ->
+                  let (t', c') = settle (next_d d') conv t0 c in
+                  ((true, t'), c')
+                | _ :: _ -> ((true, (TSimplified (conv, t0, q', false))), c))))
 
 (** val mk_unique : cand option -> tr **)
 
@@ -1064,6 +1118,12 @@ let mk_charset d t c =
   let (p, c') = locate (next_d d) (S (rem t)) t c in
   let (found, t') = p in ((TCharset (t', (negb found))), c')
 
+(** val mk_simplified :
+    nat -> (cand -> (cand * cand list) option) -> tr -> cache -> tr * cache **)
+
+let mk_simplified d conv t c =
+  settle (next_d d) conv t c
+
 (** val mk_uniquified : nat -> tr -> cache -> tr * cache **)
 
 let mk_uniquified d t c =
@@ -1104,6 +1164,7 @@ type filt =
 | FUniquifier
 | FSingleChar
 | FCharset
+| FSimplifier of (cand -> (cand * cand list) option)
 
 (** val add_filter : menu -> filt -> menu **)
 
@@ -1114,6 +1175,7 @@ let add_filter m f =
     | FUniquifier -> mk_uniquified d m.m_res m.m_cache
     | FSingleChar -> mk_single_char d m.m_res m.m_cache
     | FCharset -> mk_charset d m.m_res m.m_cache
+    | FSimplifier conv -> mk_simplified d conv m.m_res m.m_cache
   in
   { m_res = t; m_cache = c }
 
@@ -1423,6 +1485,97 @@ let rec build = function
 | SpPrefetch s0 -> mk_prefetch (build s0)
 | SpSingle s0 -> let t = build s0 in fst (mk_single_char (height t) t [])
 | SpCharset s0 -> let t = build s0 in fst (mk_charset (height t) t [])
+
+type sdict = (n * n list) list
+
+(** val dict_find : sdict -> n -> n list option **)
+
+let rec dict_find d k =
+  match d with
+  | [] -> None
+  | p :: r -> let (k', v) = p in if N.eqb k' k then Some v else dict_find r k
+
+(** val dedupN : n list -> n list -> n list **)
+
+let rec dedupN seen = function
+| [] -> []
+| x :: r ->
+  if existsb (N.eqb x) seen
+  then dedupN seen r
+  else x :: (dedupN (x :: seen) r)
+
+(** val with_text : cand -> text -> cand **)
+
+let with_text c t =
+  if text_eqb t c.c_text
+  then c
+  else { c_text = t; c_comment = c.c_comment; c_type =
+         (if Nat.eqb c.c_uniq O then c.c_type else S (S (S (S (S O)))));
+         c_start = c.c_start; c_end = c.c_end; c_quality = c.c_quality;
+         c_uniq = (S O) }
+
+(** val default_of : sdict -> n -> n **)
+
+let default_of d k =
+  match dict_find d k with
+  | Some l -> (match l with
+               | [] -> k
+               | v :: _ -> v)
+  | None -> k
+
+(** val dict_conv : sdict -> cand -> (cand * cand list) option **)
+
+let dict_conv d c =
+  let single =
+    match c.c_text with
+    | [] -> None
+    | k :: l ->
+      (match l with
+       | [] ->
+         (match dict_find d k with
+          | Some vs ->
+            (match dedupN [] vs with
+             | [] -> None
+             | v :: r ->
+               Some ((with_text c (v :: [])),
+                 (map (fun x -> with_text c (x :: [])) r)))
+          | None -> None)
+       | _ :: _ -> None)
+  in
+  (match single with
+   | Some r -> Some r
+   | None ->
+     let t' = map (default_of d) c.c_text in
+     if text_eqb t' c.c_text then None else Some ((with_text c t'), []))
+
+(** val dict_a : sdict **)
+
+let dict_a =
+  ((Npos (XI (XO (XO (XO (XO (XO (XO (XO (XO (XI (XI (XI (XO (XO
+    XH))))))))))))))), ((Npos (XO (XO (XO (XO (XO (XO (XO (XO (XO (XI (XI (XI
+    (XO (XO XH))))))))))))))) :: [])) :: (((Npos (XO (XO (XI (XI (XO (XO (XO
+    (XI (XO (XI (XI (XI (XO (XO XH))))))))))))))), ((Npos (XO (XO (XI (XI (XO
+    (XO (XO (XI (XO (XI (XI (XI (XO (XO XH))))))))))))))) :: ((Npos (XO (XO
+    (XO (XO (XO (XO (XO (XO (XO (XI (XI (XI (XO (XO
+    XH))))))))))))))) :: []))) :: (((Npos (XO (XI (XO (XO (XO (XO XH))))))),
+    ((Npos (XI (XO (XO (XO (XO (XO XH))))))) :: [])) :: (((Npos (XO (XO (XO
+    (XO (XO (XO (XO (XO (XO (XO (XI (XO (XI XH)))))))))))))), ((Npos (XO (XO
+    (XO (XO (XO (XO (XO (XO (XO (XI (XI (XI (XO (XO
+    XH))))))))))))))) :: [])) :: (((Npos (XO (XO (XI (XO (XO (XO XH))))))),
+    ((Npos (XI (XI (XO (XO (XO (XO XH))))))) :: ((Npos (XI (XO (XO (XO (XO
+    (XO XH))))))) :: ((Npos (XO (XO (XI (XO (XO (XO
+    XH))))))) :: [])))) :: []))))
+
+(** val dict_b : sdict **)
+
+let dict_b =
+  ((Npos (XO (XO (XO (XO (XO (XO (XO (XO (XO (XI (XI (XI (XO (XO
+    XH))))))))))))))), ((Npos (XI (XO (XO (XO (XO (XO (XO (XO (XO (XI (XI (XI
+    (XO (XO XH))))))))))))))) :: [])) :: (((Npos (XI (XO (XO (XO (XO (XO
+    XH))))))), ((Npos (XO (XI (XO (XO (XO (XO XH))))))) :: ((Npos (XI (XO (XO
+    (XO (XO (XO XH))))))) :: []))) :: (((Npos (XO (XO (XO (XO (XO (XO (XI (XI
+    (XI (XO (XI (XI (XO (XO XH))))))))))))))), ((Npos (XI (XI (XI (XI (XI (XI
+    (XO (XI (XI (XO (XI (XI (XO (XO XH))))))))))))))) :: [])) :: []))
 
 (** val menu_of : spec list -> filt list -> menu **)
 
